@@ -55,3 +55,56 @@ def nested(versionless: bool, order: bool, ow: bool) -> bool:
     reach()
     P_.sample({"versionless": v[0], "order": v[1], "ow": v[2]})
     return P_.native_call("vt.harness.c14_inst", "nested_native", v[0], v[1], v[2])
+
+
+def installed_native(i):
+    """i-th installed schema (widgets/dashboard excluded): its partial class can be created; the empty partial is an
+    identity; a rich valid instance (where the harness knows one) survives complete -> partial -> complete."""
+    from metador_core.plugins import schemas
+
+    names = sorted({r.name for r in schemas.keys()} - {"core.dashboard"})
+    if i >= len(names):
+        return True
+    name = names[i]
+    S = schemas.get(name, schemas.resolve(name).version)
+    try:
+        P = S.Partial
+        e = P()
+    except Exception as ex:  # noqa
+        note(("partial of an installed schema cannot be created", name, type(ex).__name__, str(ex)[:100]))
+        return False
+    if e.merge_with(P()) != e:
+        note(("empty partial is not an identity", name))
+        return False
+    rich = {
+        "core.file": dict(filename="a.txt", encodingFormat="text/plain", contentSize=3, sha256="ab" * 32,
+                          dateCreated="2021-02-03T10:30:00", dateModified="2021-02-04"),
+        "core.dir": dict(name="x", dateCreated="2021-02-03T10:30:00"),
+        "core.org": dict(name="ACME", url="http://x.org"),
+        "core.person": dict(name="N N", givenName="N", familyName="N"),
+    }.get(name)
+    if rich is not None:
+        obj = S(**rich)
+        back = P.to_partial(obj).from_partial()
+        if back != obj:
+            diff = [k for k in obj.__fields__ if getattr(obj, k) != getattr(back, k)]
+            note(("complete -> partial -> complete differs", name, diff, [repr(getattr(obj, k)) + " -> " + repr(getattr(back, k)) for k in diff][:2]))
+            return False
+        viaj = P.parse_raw(obj.json()).from_partial() if hasattr(P, "parse_raw") else obj
+        if viaj != obj:
+            note(("complete -> JSON -> partial -> complete differs", name))
+            return False
+    return True
+
+
+def installed(i: int) -> bool:
+    """
+    pre: 0 <= i < 16
+    post: _
+    """
+    k = 0
+    for c in range(16):
+        if i == c:
+            k = c
+    reach()
+    return P_.native_call("vt.harness.c14_inst", "installed_native", k)
